@@ -149,6 +149,7 @@ class Obj(Native):
     def __init__(self, **kw):
         self.__dict__.update(kw)
 MAX_STEPS = 200000
+COUNTER = [0]           # evaluation steps over all evaluators (expressions + statements): read by the work tabulations
 
 
 class Evaluator:
@@ -177,6 +178,7 @@ class Evaluator:
     # -- expressions ----------------------------------------------------------------
     def ev(self, n):
         self.steps += 1
+        COUNTER[0] += 1
         if self.steps > MAX_STEPS:
             raise Unsupported('step bound exceeded')
         if isinstance(n, ast.Constant):
@@ -381,6 +383,7 @@ class Evaluator:
     def run(self, stmts):
         for st in stmts:
             self.steps += 1
+            COUNTER[0] += 1
             if self.steps > MAX_STEPS:
                 raise Unsupported('step bound exceeded')
             if isinstance(st, ast.Assign):
